@@ -91,6 +91,20 @@ add("C22", "vcheck", "exploration", RT,
     "A corpus of 8 derived DbType/DbElement types with arbitrary field values stored singly and in batches, read back through both documented routes, one element updated through its db_id: values equal, only the updated element changes, typed searches return only that type.",
     "A None field is omitted on save (documented), so after an update the stored key keeps its previous value; the oracle expects exactly that.", "DESIGN 3/C22")
 
+RAFT = "schedule exploration of the real consensus code in a deterministic simulator (virtual per-node clocks, harness-owned network): proptest-generated schedules (timer ticks, delivery, loss, lost responses, duplication, reordering, partitions, client appends) plus depth-first exhaustive enumeration over a reduced action alphabet with state de-duplication; invariants checked after every action; failures shrunk to a replay schedule"
+add("C27", "raftsim", "exploration", RAFT,
+    "3-node (and sampled 5-node) clusters running agdb_server/src/raft.rs itself: 80 000 (thorough 1.5 million) random schedules of up to 70 (250) actions in transport-faithful and adversarial network modes, plus every schedule over a 16-action alphabet to depth 8 (10) from the initial state; after every action the set of (term, node) pairs that were ever leader must hold at most one node per term.",
+    "Trusted: the simulator's transport model (one FIFO channel per directed pair; responses of different targets may overtake each other; adversarial mode adds duplication and reordering), the build-time substitution of std::time::Instant by a virtual clock (nothing else in raft.rs is touched; the build fails if the import line changes). Exhaustive only to the stated depth over the reduced alphabet; random search never shows absence.", "DESIGN 3/C27, 2.7, appendix E")
+add("C28", "raftsim", "exploration", RAFT,
+    "Same campaigns as C27 with client appends at every node that believes it is leader (stale leaders included) and an in-memory log storage mirroring ClusterStorage/ClusterLog: after every action no two nodes hold different committed entries at one index, a committed entry never changes or disappears, commit indexes never decrease and never pass the log end. Pass A meets the listed known finding (append accepted on a divergent prefix) and continues; pass B excludes such deliveries by construction (counted) so that any other cause is reported.",
+    "As C27. The known finding is identified by its trigger predicate evaluated on the trace (an Append accepted by a node whose entries below the first carried index differ from the sender's), not by the symptom.", "DESIGN 3/C28, appendix E")
+add("C29", "raftsim", "exploration", RAFT,
+    "Same campaigns as C28: the harness records every (index, term, data) that a node in Leader state committed (the acknowledgement point); whenever a node becomes leader its log must hold all of them at the same index. Pass A/B as for C28.",
+    "As C28 (same root cause for the listed finding).", "DESIGN 3/C29, appendix E")
+add("C30", "raftsim", "exploration", "bounded-liveness property testing in the deterministic raft simulator: proptest-generated fault-free schedules (delivery orders, append times) from the initial state and from states reached by generated faulty prefixes (loss, timer skew, partitions)",
+    "2-, 3- and 5-node clusters: after the (optional) faulty prefix all clocks advance together in 10 ms quanta (the server's loop period), every in-flight message is delivered exactly once in a generated order, appends are issued at the settled leader; within 12 000 quanta (120 s of virtual time, 40 term timeouts) there must be exactly one leader followed by all nodes with every node having committed exactly the leader's entries, all of them. Refutes liveness within the bound, cannot establish it. Three listed known findings (2-node candidate livelock; reconciliation that cannot repair a follower with a stale higher-term tail, as endless message exchange and as missing replication) are met and counted; the campaign continues behind them.",
+    "Weakest oracle of the suite (bounded liveness). The bound is 40x the longest convergence observed on the unchanged tree, reported as max_quanta_needed. A follower keeping a stale uncommitted entry beyond the leader's log is not judged (the property speaks of entries appended at the leader).", "DESIGN 3/C30, appendix E")
+
 TITLES = {}
 for l in open("/verif/properties.jsonl"):
     pr = json.loads(l)
